@@ -31,7 +31,7 @@ var c01APIExceptions = map[string]string{
 }
 
 var c01MapRangeExceptions = map[string]string{
-	"evm.(*StateDBWrapper).Finish:recv.accessedObjAddrs":                "each iteration touches only the account at the iteration key (distinct keys, distinct accounts) and marks it in the overlay; the overlay is committed in sorted key order (D-2 on FinalityLedger.Commit)",
+	"evm.(*StateDBWrapper).Finish:recv.accessedObjAddrs": "each iteration touches only the account at the iteration key (distinct keys, distinct accounts) and marks it in the overlay; the overlay is committed in sorted key order (D-2 on FinalityLedger.Commit)",
 }
 
 func consFuncs(x *ExecCtx) []*ssa.Function {
